@@ -15,6 +15,7 @@ import (
 	"unicode/utf8"
 
 	"github.com/openGemini/openGemini/engine/immutable/colstore"
+	engineindex "github.com/openGemini/openGemini/engine/index"
 	"github.com/openGemini/openGemini/engine/index/bloomfilter"
 	"github.com/openGemini/openGemini/engine/index/sparseindex"
 	"github.com/openGemini/openGemini/lib/fragment"
@@ -55,6 +56,10 @@ type BloomIn struct {
 	// Chop[i]: bytes cut off the end of content[i] at run time - a value that ends inside a multi-byte character (truncated,
 	// i.e. invalid UTF-8; a JSON string cannot carry such bytes itself)
 	Chop []int `json:"chop,omitempty"`
+	// ViaBuilder: the bloom-filter writer is not constructed by the harness with the default split characters but the way
+	// a flush constructs it: index.IndexWriterBuilder.NewIndexWriters over the index relation that CREATE MEASUREMENT ...
+	// INDEXTYPE bloomfilter INDEXLIST content produces (StatementExecutor.getIndexRelation: an IndexOptions entry without options)
+	ViaBuilder bool `json:"viabuilder,omitempty"`
 }
 
 // effective: the case with the chopped values
@@ -484,6 +489,17 @@ func runBloomCase(id int, orig *BloomIn, work string) *BloomOut {
 		var data []byte
 		p := guard(func() {
 			w := sparseindex.NewBloomFilterWriter("", "", "", "", tokenizer.CONTENT_SPLITTER)
+			if in.ViaBuilder {
+				ir := influxql.IndexRelation{Oids: []uint32{uint32(index.BloomFilter)}, IndexNames: []string{index.BloomFilterIndex},
+					IndexList: []*influxql.IndexList{{IList: []string{cn}}}, IndexOptions: []*influxql.IndexOptions{{}}}
+				b := engineindex.NewIndexWriterBuilder()
+				b.NewIndexWriters(dir, "m", path.Join(dir, "00000001-0001-00000001.tssp"), "", record.Schemas{{Name: cn, Type: influx.Field_Type_String}}, ir)
+				bw, ok := b.GetSkipIndexWriters()[0].(*sparseindex.BloomFilterWriter)
+				if !ok {
+					panic("the builder did not make a BloomFilterWriter")
+				}
+				w = bw
+			}
 			data = w.GenBloomFilterData(&col, append([]int(nil), rowsPer...), influx.Field_Type_String)
 		})
 		if p != "" {
@@ -727,6 +743,7 @@ func genBloomCase(r *gen.Rand) *BloomIn {
 			}
 		}
 	}
+	in.ViaBuilder = r.Chance(1, 5)
 	in.LastMinus1 = r.Bool()
 	switch r.Intn(10) {
 	case 0, 1:
